@@ -144,9 +144,11 @@ def meta_text(max_size: int = 16):
 
 @lru_cache(maxsize=None)
 def tag_text():
-    """One tag: non-empty, no whitespace."""
+    """One tag: non-empty, no ASCII space.  The format separates tags at the ASCII space only, so a tag may hold
+    other white space (ideographic space, no-break space, tab) *inside* it - typed through an input method."""
     return st.one_of(
         st.sampled_from(["tag", "4k", "Re:Zero", "日本語", "a:b:c", "é", "x_y", "♪"]),
+        st.sampled_from(["東方\u3000アレンジ", "ＢＭＳ\u00a0remix", "a\tb", "x\u2003y", "p\u2009q\u3000r"]),
         st.text(_tag_char, min_size=1, max_size=8),
     )
 
@@ -910,6 +912,7 @@ def describe(chart: Dict) -> Dict[str, bool]:
         "keys!=4": chart["keys"] != 4,
         "meta-colon": any(":" in s for s in strs),
         "meta-nonascii": any(not s.isascii() for s in strs),
+        "tag-with-inner-whitespace": any(any(ch.isspace() for ch in t) for t in chart["meta"].get("tags", [])),
         "tempo>=2": len(chart["bpms"]) >= 2,
         "sv": bool(chart["svs"]),
         "samples": bool(chart["samples"]),
